@@ -138,13 +138,19 @@ theorem normAbs_plain {ys : List Text} (acc : List Text) (h : NoDotDot ys) :
     rw [ih _ (fun x hx => h x (List.mem_cons_of_mem _ hx))]
     simp
 
-/-- Two relative paths without `..` resolve to the same place iff they are the same path —
-    from every working directory. -/
-theorem resolveLex_eq_iff (cwd : List Text) {a b : List Text} (ha : NoDotDot a) (hb : NoDotDot b) :
-    resolveLex cwd ⟨[], a⟩ = resolveLex cwd ⟨[], b⟩ ↔ a = b := by
-  simp only [resolveLex, List.isEmpty_nil, if_true, PPath.mk.injEq, true_and]
-  rw [normAbs_append, normAbs_append, normAbs_plain _ ha, normAbs_plain _ hb]
-  simp
+/-- Two relative paths without `..`, put below the same root, resolve to the same place iff
+    they are the same path — for every spelling of the root and from every working directory. -/
+theorem resolveLex_join_eq_iff (cwd : List Text) (root : PPath) {a b : List Text} (ha : NoDotDot a) (hb : NoDotDot b) :
+    resolveLex cwd (joinPath root ⟨[], a⟩) = resolveLex cwd (joinPath root ⟨[], b⟩) ↔ a = b := by
+  simp only [joinPath, List.isEmpty_nil, if_true, resolveLex]
+  split
+  · simp only [PPath.mk.injEq, true_and]
+    rw [← List.append_assoc, ← List.append_assoc, normAbs_append _ _ a, normAbs_append _ _ b,
+      normAbs_plain _ ha, normAbs_plain _ hb]
+    simp
+  · simp only [PPath.mk.injEq, true_and]
+    rw [normAbs_append _ _ a, normAbs_append _ _ b, normAbs_plain _ ha, normAbs_plain _ hb]
+    simp
 
 /-! ### "covered" = name rules ∧ no VCS verdict along the path -/
 
